@@ -5,7 +5,8 @@ import Knut.Model.Balance
 `mtm v days a D` = Σ over commodities of (running quantity of `a` on day `D`) × (price on day `D`),
 computed directly from the journal: quantities by summation over all bookings dated ≤ `D`, prices by
 normalising the declarations dated ≤ `D` (`Prices.normalize`, property C12).  No truncation anywhere:
-the report may deviate by at most 10⁻⁸ per valuation step (`steps`).
+the report may deviate by at most 10⁻⁸ per valuation step (`stepBound`, proved in `Properties/C03Report.lean`).
+`bookingValue` / `flowAt`: the bookings of an account valued at the price of their own day (income, expenses, equity).
 -/
 namespace Knut.Spec
 open Knut
@@ -40,7 +41,8 @@ def mtm (v : Commodity) (days : List Day) (a : Account) (D : Int) : Option Rat :
       | none => none
       | some np => (Prices.find c np).map (fun p => acc + q * p)) 0
 
-/-- number of valuation steps that can each lose < 10⁻⁸: bookings on `a` dated in `(F, D]` plus one
+/-- (superseded by `stepBound`, kept for reference: the generous count the monitor used before the bound was proved)
+number of valuation steps that can each lose < 10⁻⁸: bookings on `a` dated in `(F, D]` plus one
 revaluation per (day with a price declaration in `(F, D]`, commodity of `a`) -/
 def steps (days : List Day) (a : Account) (F D : Int) : Nat :=
   ((userPostings days).filter (fun (d, p) => decide (F < d) && decide (d ≤ D) && p.account = a)).length +
